@@ -1,9 +1,174 @@
 import Driver.Util
+import Lattigo.Model.MPSwitch
 
+/-
+  C16 line protocol (`v` vector, `iv` signed vector, `M` matrix of canonical rows).
+
+    cks_share <qs:v> <n> <c1:M> <sIn:iv> <sOut:iv> <e:iv>                 → M
+    cks_agg <qs:v> <l1> <M1> <l2> <M2> <l3> <M3>                          → err | M
+    cks_ks <qs:v> <ctLevel> <c0:M> <c1:M> <aggLevel> <agg:M>              → panic | M|M
+    agg <ms:v> T <k> <sh_1:M> … <sh_k:M>                                  → M   (component-wise)
+    pcks_share <qs:v> <p0|-> <n> <lvl> <pk0:M> <pk1:M> <u:iv> <e0:iv> <e1:iv> <c1:M> <s:iv> <e:iv>  → M|M
+    pcks_ks <qs:v> <c0:M> <h0:M> <h1:M>                                   → M|M
+    bgv_e2s <qs:v> <n> <t> <c1:M> <s:iv> <e:iv> <mask:v>                  → M
+    bgv_get <qs:v> <n> <t> <nT> <agg:M> <c0:M> <secret:v|->               → v
+    bgv_s2e <qs:v> <n> <t> <a:M> <s:iv> <e:iv> <share:v>                  → M
+    bgv_fin <qsIn:v> <qsOut:v> <n> <t> <nT> <aggE2S:M> <c0:M> <aggS2E:M> <a:M> <f:v>   → v|M|M
+        the masked plaintext (reduced mod t), then the output ct built from `f` = the (transformed)
+        masked plaintext as stored by the code (words of `RingQ2T` may lie in [t, 2t))
+    ckks_e2s <qs:v> <n> <gap> <c1:M> <s:iv> <e:iv> <mask:iv>              → M
+    ckks_get <qs:v> <n> <gap> <cnt> <agg:M> <c0:M>                        → iv
+    ckks_s2e <qs:v> <n> <gap> <a:M> <s:iv> <e:iv> <share:iv>              → M
+    ckks_scale <defaultScale> <inputScale> <mask:iv>                      → iv
+    ckks_fin <qsIn:v> <qsOut:v> <n> <gap> <cnt> <aggE2S:M> <c0:M> <aggS2E:M> <a:M> <defaultScale> <inputScale>  → iv|M|M
+-/
 namespace Driver.C16
-open Driver
+open Driver Lattigo Lattigo.MP
 
-/-- stub: replaced by the property's real handler -/
-def handle (_toks : List String) : String := badOp
+def parseTree? (s : String) : Option AggTree :=
+  let step (st : Option (List AggTree)) (tok : String) : Option (List AggTree) := do
+    let st ← st
+    if tok == "+" then
+      match st with
+      | r :: l :: rest => some (AggTree.node l r :: rest)
+      | _ => none
+    else some (AggTree.leaf (← tok.toNat?) :: st)
+  match (s.splitOn ",").foldl step (some []) with
+  | some [t] => some t
+  | _ => none
+
+def poly (qs : List Nat) (rows : List (List Nat)) : RPoly := ⟨qs, rows⟩
+
+def zeroOf (qs : List Nat) (n : Nat) : RPoly := RPoly.zero qs n
+
+def handleOpt (toks : List String) : Option String :=
+  match toks with
+  | ["cks_share", qs, _n, c1, sIn, sOut, e] => do
+      let qs ← parseVec? qs
+      let c1 := poly qs (← parseMat? c1)
+      some (showMat (cksShare c1 (RPoly.ofInts qs (← parseIVec? sIn)) (RPoly.ofInts qs (← parseIVec? sOut))
+        (RPoly.ofInts qs (← parseIVec? e))).c)
+  | ["cks_agg", qs, l1, m1, l2, m2, l3, m3] => do
+      let qs ← parseVec? qs
+      let mk (l : Nat) (m : List (List Nat)) : LShare RPoly := ⟨l, poly (qs.take (l + 1)) m⟩
+      match cksAggregate (mk (← l1.toNat?) (← parseMat? m1)) (mk (← l2.toNat?) (← parseMat? m2))
+          (mk (← l3.toNat?) (← parseMat? m3)) with
+      | .ok r => some (showMat r.v.c)
+      | .err => some "err"
+      | .panic => some "panic"
+  | ["cks_ks", qs, ctLevel, c0, c1, aggLevel, agg] => do
+      let qs ← parseVec? qs
+      let ctLevel ← ctLevel.toNat?
+      let aggLevel ← aggLevel.toNat?
+      let aggP : RPoly := poly (qs.take (aggLevel + 1)) (← parseMat? agg)
+      match cksKeySwitch ctLevel (poly qs (← parseMat? c0)) (poly qs (← parseMat? c1)) ⟨aggLevel, aggP⟩ with
+      | .ok (a, b) => some (showMat a.c ++ "|" ++ showMat b.c)
+      | .err => some "err"
+      | .panic => some "panic"
+  | "agg" :: ms :: tree :: k :: rest => do
+      let ms ← parseVec? ms
+      let tree ← parseTree? tree
+      let k ← k.toNat?
+      let shs ← rest.mapM parseMat?
+      if shs.length ≠ k ∨ ms.isEmpty then none
+      let polys : List RPoly := shs.map fun rows =>
+        ⟨(List.range rows.length).map fun i => ms[i % ms.length]!, rows⟩
+      if tree.leaves.any (· ≥ k) then none
+      some (showMat (tree.eval (· + ·) (fun i => polys[i]!)).c)
+  | ["pcks_share", qs, p0, n, lvl, pk0, pk1, u, e0, e1, c1, s, e] => do
+      let qs ← parseVec? qs
+      let n ← n.toNat?
+      let lvl ← lvl.toNat?
+      let u ← parseIVec? u
+      let e0 ← parseIVec? e0
+      let e1 ← parseIVec? e1
+      let pk0 ← parseMat? pk0
+      let pk1 ← parseMat? pk1
+      let z : RPoly × RPoly ←
+        if p0 == "-" then
+          some (encZeroPkNoP (poly qs pk0) (poly qs pk1) (RPoly.ofInts qs u) (RPoly.ofInts qs e0) (RPoly.ofInts qs e1))
+        else do
+          let p ← p0.toNat?
+          let ms := qs ++ [p]
+          -- u·pk + e over Q·p₀, then the division by p₀ on the rows of Q
+          let x0 := RPoly.ofInts ms u * poly ms pk0 + RPoly.ofInts ms e0
+          let x1 := RPoly.ofInts ms u * poly ms pk1 + RPoly.ofInts ms e1
+          let k := qs.length
+          some (encZeroPk (pinvPoly qs p n) (dropRow (poly ms pk0) k) (dropRow (poly ms pk1) k)
+            (RPoly.ofInts qs u) (RPoly.ofInts qs e0) (RPoly.ofInts qs e1) (centredLiftP qs p x0) (centredLiftP qs p x1))
+      -- the ciphertext part only touches the rows up to min(share level, ct level)
+      let ql := qs.take (lvl + 1)
+      let low := pcksShare (dropRow z.1 (lvl + 1), dropRow z.2 (lvl + 1)) (poly ql (← parseMat? c1))
+        (RPoly.ofInts ql (← parseIVec? s)) (RPoly.ofInts ql (← parseIVec? e))
+      some (showMat (low.1.c ++ z.1.c.drop (lvl + 1)) ++ "|" ++ showMat z.2.c)
+  | ["pcks_ks", qs, c0, h0, h1] => do
+      let qs ← parseVec? qs
+      let r := pcksKeySwitch (poly qs (← parseMat? c0)) (poly qs (← parseMat? h0), poly qs (← parseMat? h1))
+      some (showMat r.1.c ++ "|" ++ showMat r.2.c)
+  | ["bgv_e2s", qs, n, t, c1, s, e, mask] => do
+      let qs ← parseVec? qs
+      let n ← n.toNat?
+      let t ← t.toNat?
+      let m := ringT2Q qs n t (← parseVec? mask)
+      some (showMat (e2sShare (zeroOf qs n) (poly qs (← parseMat? c1)) (RPoly.ofInts qs (← parseIVec? s))
+        (RPoly.ofInts qs (← parseIVec? e)) m).c)
+  | ["bgv_get", qs, _n, t, nT, agg, c0, secret] => do
+      let qs ← parseVec? qs
+      let t ← t.toNat?
+      let nT ← nT.toNat?
+      let masked := ringQ2T t nT (e2sMasked (poly qs (← parseMat? c0)) (poly qs (← parseMat? agg)))
+      if secret == "-" then some (showVec masked)
+      else some (showVec (addT t (← parseVec? secret) masked))
+  | ["bgv_s2e", qs, n, t, a, s, e, share] => do
+      let qs ← parseVec? qs
+      let n ← n.toNat?
+      let t ← t.toNat?
+      let m := ringT2Q qs n t (← parseVec? share)
+      some (showMat (s2eShare (zeroOf qs n) (poly qs (← parseMat? a)) (RPoly.ofInts qs (← parseIVec? s))
+        (RPoly.ofInts qs (← parseIVec? e)) m).c)
+  | ["bgv_fin", qsIn, qsOut, n, t, nT, aggE2S, c0, aggS2E, a, f] => do
+      let qsIn ← parseVec? qsIn
+      let qsOut ← parseVec? qsOut
+      let n ← n.toNat?
+      let t ← t.toNat?
+      let nT ← nT.toNat?
+      let masked := ringQ2T t nT (e2sMasked (poly qsIn (← parseMat? c0)) (poly qsIn (← parseMat? aggE2S)))
+      let f ← parseVec? f
+      let ct := refreshFinalize (ringT2Q qsOut n t f) (poly qsOut (← parseMat? aggS2E)) (poly qsOut (← parseMat? a))
+      some (showVec masked ++ "|" ++ showMat ct.1.c ++ "|" ++ showMat ct.2.c)
+  | ["ckks_e2s", qs, n, gap, c1, s, e, mask] => do
+      let qs ← parseVec? qs
+      let n ← n.toNat?
+      let gap ← gap.toNat?
+      let m := ofBigints qs n gap (← parseIVec? mask)
+      some (showMat (e2sShare (zeroOf qs n) (poly qs (← parseMat? c1)) (RPoly.ofInts qs (← parseIVec? s))
+        (RPoly.ofInts qs (← parseIVec? e)) m).c)
+  | ["ckks_get", qs, _n, gap, cnt, agg, c0] => do
+      let qs ← parseVec? qs
+      let gap ← gap.toNat?
+      let cnt ← cnt.toNat?
+      some (showIVec (toBigints (e2sMasked (poly qs (← parseMat? c0)) (poly qs (← parseMat? agg))) gap cnt))
+  | ["ckks_s2e", qs, n, gap, a, s, e, share] => do
+      let qs ← parseVec? qs
+      let n ← n.toNat?
+      let gap ← gap.toNat?
+      let m := ofBigints qs n gap (← parseIVec? share)
+      some (showMat (s2eShare (zeroOf qs n) (poly qs (← parseMat? a)) (RPoly.ofInts qs (← parseIVec? s))
+        (RPoly.ofInts qs (← parseIVec? e)) m).c)
+  | ["ckks_scale", ds, is, mask] => do
+      some (showIVec (rescaleMask (← ds.toInt?) (← is.toInt?) (← parseIVec? mask)))
+  | ["ckks_fin", qsIn, qsOut, n, gap, cnt, aggE2S, c0, aggS2E, a, ds, is] => do
+      let qsIn ← parseVec? qsIn
+      let qsOut ← parseVec? qsOut
+      let n ← n.toNat?
+      let gap ← gap.toNat?
+      let cnt ← cnt.toNat?
+      let masked := toBigints (e2sMasked (poly qsIn (← parseMat? c0)) (poly qsIn (← parseMat? aggE2S))) gap cnt
+      let scaled := rescaleMask (← ds.toInt?) (← is.toInt?) masked
+      let ct := refreshFinalize (ofBigints qsOut n gap scaled) (poly qsOut (← parseMat? aggS2E)) (poly qsOut (← parseMat? a))
+      some (showIVec masked ++ "|" ++ showMat ct.1.c ++ "|" ++ showMat ct.2.c)
+  | _ => none
+
+def handle (toks : List String) : String := (handleOpt toks).getD badOp
 
 end Driver.C16
